@@ -24,6 +24,9 @@ enum Kind {
     /// no surrounding transaction rolls a half-done operation back (seed C09g)
     SendDirect,
     BurnDirect,
+    /// the contract calls ITSELF with funds attached: a self-transfer through the wasm funds route,
+    /// which must be positive and covered like any other (seed C09k)
+    ContractSelfCall,
 }
 
 struct World {
@@ -129,8 +132,13 @@ fn step(w: &mut World, n: usize, kinds: &[Kind], shape_list: &[Vec<usize>]) {
         Kind::Burn | Kind::BurnDirect => (Some(0), None),
         Kind::Mint => (None, Some([1, 2][choose(2)])),
         Kind::ContractSend => (Some(3), Some([1, 3, 2][choose(3)])),
+        Kind::ContractSelfCall => (Some(3), Some(3)),
     };
     note(format!("step{} {:?} from={:?} to={:?} denoms={:?}", n, kind, from, to, shape));
+    if matches!(kind, Kind::ContractSelfCall) && shape.is_empty() {
+        // a call without funds is no bank operation at all
+        return;
+    }
     let before = snapshot(&w.app);
     sc::trace_clear();
     let res = catch(|| match kind {
@@ -152,6 +160,16 @@ fn step(w: &mut World, n: usize, kinds: &[Kind], shape_list: &[Vec<usize>]) {
             .app
             .sudo(SudoMsg::Bank(BankSudo::Mint { to_address: w.accts[to.unwrap()].to_string(), amount: coins.clone() }))
             .map(|_| ()),
+        Kind::ContractSelfCall => {
+            let me = w.accts[3].clone();
+            let script = Script::new().sub(
+                cosmwasm_std::WasmMsg::Execute { contract_addr: me.to_string(), msg: Script::new().bin(), funds: coins.clone() },
+                ReplyOn::Never,
+                1,
+                None,
+            );
+            w.app.execute_contract(w.accts[0].clone(), me, &script, &[]).map(|_| ())
+        }
         Kind::ContractSend => {
             let script = Script::new().sub(
                 BankMsg::Send { to_address: w.accts[to.unwrap()].to_string(), amount: coins.clone() },
@@ -242,9 +260,9 @@ pub fn scenarios(tier: &str) -> Vec<Scenario> {
             step(&mut w, 0, &all, &full);
         }));
         let full2 = shapes(2);
-        v.push(Scenario::new("one_step_through_the_keeper_directly", &["some_ok", "some_err"], move || {
+        v.push(Scenario::new("one_step_through_the_keeper_directly_or_a_funded_self_call", &["some_ok", "some_err"], move || {
             let mut w = setup(true);
-            step(&mut w, 0, &[Kind::SendDirect, Kind::BurnDirect], &full2);
+            step(&mut w, 0, &[Kind::SendDirect, Kind::BurnDirect, Kind::ContractSelfCall], &full2);
         }));
     }
     {
